@@ -64,6 +64,7 @@ type seqRun struct {
 	asked     [2]map[int]want   // the peer's own current want-list (what it asked for and did not take back / receive)
 	gone      [2]map[int]string // why a CID last left asked: cancel / full-replace / disconnect / delivered
 	oblig     [2]map[int]bool   // accepted wants for an absent block with send_dont_have that still wait for any answer
+	squeezed  [2]map[int]bool   // classification aid: wants whose task was dropped by a push into a full task queue
 	connected [2]bool
 	deleted   [nCids]bool // removed from the store by a del operation
 	req       <-chan *decision.Envelope
@@ -71,8 +72,8 @@ type seqRun struct {
 
 	// results
 	log     []string
-	viol    *eng.Violation
-	violAt  int
+	viols   []*eng.Violation // violations raised by the LAST operation of the script (and by the final drain)
+	fatal   bool             // scheduler-level failure: the state is not expanded
 	key     string
 	enabled []string
 	cov     map[string]int
@@ -86,9 +87,12 @@ func (x *seqRun) logf(f string, a ...any) {
 func (x *seqRun) count(k string) { x.cov[k]++ }
 
 func (x *seqRun) fail(v *eng.Violation) {
-	if x.viol == nil {
-		x.viol = v
+	for _, o := range x.viols {
+		if o.Symptom == v.Symptom && fmt.Sprint(o.Features) == fmt.Sprint(v.Features) {
+			return
+		}
 	}
+	x.viols = append(x.viols, v)
 }
 
 // Main is thread 0 of the vsched execution.
@@ -98,26 +102,32 @@ func (x *seqRun) Main() {
 		x.asked[i] = map[int]want{}
 		x.gone[i] = map[int]string{}
 		x.oblig[i] = map[int]bool{}
+		x.squeezed[i] = map[int]bool{}
 	}
 	x.w = newWorld(x.cfg)
 	vsched.WaitIdle()
 	for i, op := range x.ops {
+		// violations of earlier operations were reported when that prefix was explored
+		x.viols = nil
+		if i == len(x.ops)-1 {
+			x.cov = map[string]int{} // coverage counters describe the last operation (plus the drain) only
+		}
 		x.step(op)
-		if x.viol != nil {
-			x.violAt = i
-			if x.viol.Op == "" {
-				x.viol.Op = opKind(op)
+		if i == len(x.ops)-1 {
+			for _, v := range x.viols {
+				if v.Op == "" {
+					v.Op = opKind(op)
+				}
 			}
-			return
 		}
 	}
 	x.key = x.stateKey()
 	x.enabled = x.enabledOps()
+	n := len(x.viols)
 	x.drain()
-	if x.viol != nil {
-		x.violAt = len(x.ops)
-		if x.viol.Op == "" {
-			x.viol.Op = "quiescence"
+	for _, v := range x.viols[n:] {
+		if v.Op == "" {
+			v.Op = "quiescence"
 		}
 	}
 }
@@ -151,9 +161,14 @@ func (x *seqRun) step(op string) {
 	case op == "sent":
 		x.sent()
 	case op == "new:C":
+		pend := [2]int{x.pendingCount(0), x.pendingCount(1)}
 		x.w.put(cC)
 		x.w.e.NotifyNewBlocks([]blocks.Block{poolBlks[cC]})
 		x.logf("new:C: block C stored, NotifyNewBlocks(C)")
+		vsched.WaitIdle()
+		for r := 0; r < 2; r++ {
+			x.markSqueezed(r, pend[r]+1 > x.cfg.L)
+		}
 	case strings.HasPrefix(op, "del:"):
 		c := strings.IndexByte(cidNames, op[4])
 		x.w.del(c)
@@ -167,6 +182,7 @@ func (x *seqRun) step(op string) {
 		}
 		x.asked[r] = map[int]want{}
 		x.oblig[r] = map[int]bool{}
+		x.squeezed[r] = map[int]bool{}
 		x.connected[r] = false
 		for _, h := range x.held {
 			if h.role == r {
@@ -179,9 +195,7 @@ func (x *seqRun) step(op string) {
 	}
 	vsched.WaitIdle()
 	x.poll()
-	if x.viol == nil {
-		x.invariants(op)
-	}
+	x.invariants(op)
 }
 
 func (x *seqRun) enabledOps() []string {
@@ -305,7 +319,7 @@ func (x *seqRun) judge(env *decision.Envelope) {
 	for _, c := range h.donts {
 		x.count("dont_haves_sent")
 		if w.serves(r, c) {
-			x.fail(eng.V("dont-have-for-present-block", "", fmt.Sprintf("DONT_HAVE %s sent to p%d although the block is in the blockstore and permitted", cname(c), r+1), "cid_kind", kind(c)))
+			x.fail(eng.V("dont-have-for-present-block", "", fmt.Sprintf("DONT_HAVE %s sent to p%d although the block is in the blockstore and permitted", cname(c), r+1), "cid_kind", kind(c), "task_dropped_queue_at_limit", fmt.Sprint(x.squeezed[r][c])))
 		}
 		if a, ok := x.asked[r][c]; !ok || !a.dh {
 			x.fail(eng.V("dont-have-not-requested", "", fmt.Sprintf("DONT_HAVE %s sent to p%d which did not ask for it (want-list %s; left by: %s)", cname(c), r+1, fmtWants(x.asked[r]), why(c)), "want_removed_by", why(c)))
@@ -366,10 +380,12 @@ func (x *seqRun) recv(r int, spec string) {
 	ms := parseMsg(spec)
 	msg, merged := ms.build()
 	pre := w.ledger(r)
-	hadBlock := map[int]bool{} // availability as the engine can see it while it processes the message
+	pendBefore := x.pendingCount(r)
+	hadBlock := map[int]bool{} // availability while the engine processes the message
 	for c := 0; c < nCids; c++ {
 		hadBlock[c] = w.store[c]
 	}
+	L := x.cfg.L
 	// model: the peer's own want-list
 	x.connected[r] = true
 	if ms.full {
@@ -379,9 +395,12 @@ func (x *seqRun) recv(r int, spec string) {
 		x.asked[r] = map[int]want{}
 		x.count("full_messages")
 	}
-	wants := map[int]mEntry{} // effective want entries (not ignored, not denied)
-	nWantEntries := 0
+	// effective want entries: not ignored, not denied, and - as the engine takes no more want entries
+	// from one message than the limit - only the first L in message order ("cut" = beyond that)
+	wants := map[int]mEntry{}
 	cancels := map[int]bool{}
+	var cut []int
+	deniedDH := 0
 	for _, e := range merged {
 		if e.cancel {
 			if _, ok := x.asked[r][e.c]; ok {
@@ -393,7 +412,9 @@ func (x *seqRun) recv(r int, spec string) {
 			}
 			continue
 		}
-		x.asked[r][e.c] = want{e.prio, e.have, e.dh}
+		// send_dont_have is sticky while the want stays on the list (as in the message type itself)
+		old, had := x.asked[r][e.c]
+		x.asked[r][e.c] = want{e.prio, e.have, e.dh || (had && old.dh)}
 		delete(x.gone[r], e.c)
 		if e.c == cI || e.c == cO {
 			x.count("ignored_cid_entries")
@@ -401,10 +422,20 @@ func (x *seqRun) recv(r int, spec string) {
 		}
 		if !permitted(r, e.c) {
 			x.count("denied_entries")
+			if e.dh {
+				deniedDH++
+			}
 			continue
 		}
-		nWantEntries++
+		if len(wants) >= L {
+			cut = append(cut, e.c)
+			continue
+		}
 		wants[e.c] = e
+	}
+	truncated := len(cut) > 0
+	if truncated {
+		x.count("messages_cut_at_limit")
 	}
 	kill := w.e.MessageReceived(context.Background(), w.ids[r], msg)
 	x.logf("r%d:%s: MessageReceived(p%d, %s) -> %v", r+1, spec, r+1, spec, kill)
@@ -415,13 +446,8 @@ func (x *seqRun) recv(r int, spec string) {
 	vsched.WaitIdle()
 	post := w.ledger(r)
 	x.logf("  want-list of p%d: %s -> %s", r+1, fmtLedger(pre), fmtLedger(post))
-	L := x.cfg.L
-	truncated := nWantEntries > L
-	if truncated {
-		x.count("messages_truncated_at_limit")
-	}
 	feat := func(kv ...string) []string {
-		return append(kv, "full_message", fmt.Sprint(ms.full), "truncated_at_limit", fmt.Sprint(truncated))
+		return append(kv, "full_message", fmt.Sprint(ms.full), "cut_at_limit", fmt.Sprint(truncated))
 	}
 	// (limit) the queued want-list never exceeds L
 	if len(post) > L {
@@ -445,14 +471,20 @@ func (x *seqRun) recv(r int, spec string) {
 		case ms.full:
 			reason = "replaced-by-this-full-message"
 		}
-		x.fail(eng.V("wantlist-stale-entry", "MessageReceived", fmt.Sprintf("want-list of p%d contains %s after MessageReceived(%s): %s -> %s", r+1, cname(c), spec, fmtLedger(pre), fmtLedger(post)), feat("stale_because", reason)...))
+		x.fail(eng.V("wantlist-stale-entry", "MessageReceived", fmt.Sprintf("want-list of p%d contains %s after MessageReceived(%s): %s -> %s", r+1, cname(c), spec, fmtLedger(pre), fmtLedger(post)), feat("stale_because", reason, "message_without_entries", fmt.Sprint(len(merged) == 0))...))
 	}
 	// classification of this message's effect
-	var admitted, rejected, evicted, survivors []int
+	var admitted, rejected, evicted, oldSurvivors []int
+	newcomers := 0
 	for c := range wants {
+		_, was := pre[c]
+		was = was && !ms.full
+		if !was {
+			newcomers++
+		}
 		if _, ok := post[c]; !ok {
 			rejected = append(rejected, c)
-		} else if _, was := pre[c]; !was || ms.full {
+		} else if !was {
 			admitted = append(admitted, c)
 		}
 	}
@@ -462,14 +494,16 @@ func (x *seqRun) recv(r int, spec string) {
 				evicted = append(evicted, c)
 			}
 		}
-	}
-	for c := range post {
-		survivors = append(survivors, c)
+		for c := range post {
+			if _, ok := pre[c]; ok {
+				oldSurvivors = append(oldSurvivors, c)
+			}
+		}
 	}
 	sort.Ints(admitted)
 	sort.Ints(rejected)
 	sort.Ints(evicted)
-	sort.Ints(survivors)
+	sort.Ints(oldSurvivors)
 	eff := func(c int) int32 { // priority the server has on record when it decides
 		if e, ok := wants[c]; ok {
 			return e.prio
@@ -482,13 +516,14 @@ func (x *seqRun) recv(r int, spec string) {
 	if len(evicted) > 0 {
 		x.count("overflow_evictions")
 	}
-	desc := fmt.Sprintf("p%d limit %d, MessageReceived(%s): want-list %s -> %s; admitted %s, rejected %s, evicted %s; blocks available: %s", r+1, L, spec, fmtLedger(pre), fmtLedger(post), names(admitted), names(rejected), names(evicted), x.storeString())
+	desc := fmt.Sprintf("p%d limit %d, MessageReceived(%s): want-list %s -> %s; admitted %s, rejected %s, evicted %s, cut %s; blocks available: %s", r+1, L, spec, fmtLedger(pre), fmtLedger(post), names(admitted), names(rejected), names(evicted), names(cut), x.storeString())
 	// (acceptance) a want is turned away only when the list is full
-	if len(rejected) > 0 && len(post) < L {
+	if len(rejected) > 0 && len(post) < L && len(cancels) == 0 {
 		x.fail(eng.V("want-rejected-with-room", "MessageReceived", desc, feat()...))
 	}
-	// (eviction only on overflow, one eviction per admitted newcomer at most)
-	if len(evicted) > 0 && (len(post) < L || len(evicted) > len(admitted)) {
+	// (eviction only on overflow - cancels of the same message may be applied after the wants - and
+	// at most one eviction per admitted newcomer)
+	if len(evicted) > 0 && (len(pre)+newcomers <= L || len(evicted) > len(admitted)) {
 		x.fail(eng.V("eviction-without-overflow", "MessageReceived", desc, feat()...))
 	}
 	// (order 1) wants without a local block go first
@@ -498,14 +533,14 @@ func (x *seqRun) recv(r int, spec string) {
 			continue
 		}
 		x.count("evicted_with_block")
-		for _, s := range survivors {
-			if !hadBlock[s] && !contains(admitted, s) {
+		for _, s := range oldSurvivors {
+			if !hadBlock[s] {
 				x.fail(eng.V("eviction-order", "MessageReceived", "a want with a local block was evicted while a want without a local block stayed: "+desc, feat("order", "blockless-first")...))
 			}
 		}
 		// (order 2) then the lowest priority first
-		for _, s := range survivors {
-			if hadBlock[s] && !contains(admitted, s) && eff(s) < eff(ev) {
+		for _, s := range oldSurvivors {
+			if hadBlock[s] && eff(s) < eff(ev) {
 				x.fail(eng.V("eviction-order", "MessageReceived", fmt.Sprintf("want %s (priority %d) was evicted while the lower-priority want %s (priority %d) stayed: %s", cname(ev), eff(ev), cname(s), eff(s), desc), feat("order", "lowest-priority-first")...))
 			}
 		}
@@ -530,16 +565,17 @@ func (x *seqRun) recv(r int, spec string) {
 			}
 		}
 	}
-	// (order 4) a newcomer is not turned away while a want without block, or a lower-priority want, keeps its place
-	// (messages with more wants than the limit are cut to the limit first; not judged here)
-	if !truncated {
-		for _, n := range rejected {
-			for _, s := range survivors {
-				if !hadBlock[s] {
-					x.fail(eng.V("newcomer-rejected", "MessageReceived", fmt.Sprintf("newcomer %s was turned away although the want %s without a local block kept its place: %s", cname(n), cname(s), desc), feat("kept", "blockless")...))
-				} else if eff(s) < wants[n].prio {
-					x.fail(eng.V("newcomer-rejected", "MessageReceived", fmt.Sprintf("newcomer %s (priority %d) was turned away although the lower-priority want %s (priority %d) kept its place: %s", cname(n), wants[n].prio, cname(s), eff(s), desc), feat("kept", "lower-priority")...))
-				}
+	// (order 4) a newcomer is not turned away while an older want without block, or an older
+	// lower-priority want, keeps its place
+	for _, n := range rejected {
+		for _, s := range oldSurvivors {
+			if _, upd := wants[s]; upd {
+				continue
+			}
+			if !hadBlock[s] {
+				x.fail(eng.V("newcomer-rejected", "MessageReceived", fmt.Sprintf("newcomer %s was turned away although the older want %s without a local block kept its place: %s", cname(n), cname(s), desc), feat("kept", "blockless")...))
+			} else if eff(s) < wants[n].prio {
+				x.fail(eng.V("newcomer-rejected", "MessageReceived", fmt.Sprintf("newcomer %s (priority %d) was turned away although the older lower-priority want %s (priority %d) kept its place: %s", cname(n), wants[n].prio, cname(s), eff(s), desc), feat("kept", "lower-priority")...))
 			}
 		}
 	}
@@ -549,9 +585,66 @@ func (x *seqRun) recv(r int, spec string) {
 			delete(x.oblig[r], c)
 		}
 	}
+	nPushed := deniedDH
 	for c, e := range wants {
-		if _, ok := post[c]; ok && e.dh && !w.serves(r, c) {
-			x.oblig[r][c] = true
+		if _, ok := post[c]; ok {
+			if e.dh && !w.serves(r, c) {
+				x.oblig[r][c] = true
+			}
+			if e.dh || (w.store[c] && c != cZ) {
+				nPushed++
+			}
+		}
+	}
+	x.markSqueezed(r, pendBefore+nPushed > L)
+}
+
+// pendingCount is the number of tasks queued (not yet popped) for a peer.
+func (x *seqRun) pendingCount(r int) int {
+	if t := x.w.e.VerifQueue().VerifTracker(x.w.ids[r]); t != nil {
+		return len(t.VerifPending())
+	}
+	return 0
+}
+
+// markSqueezed records (for classification only, never for a verdict) which accepted wants of a
+// peer have no up-to-date task in the request queue right after a push that did not fit into the
+// peer's task queue (PushTasksTruncated at the want-list limit).
+func (x *seqRun) markSqueezed(r int, pushOverLimit bool) {
+	l := x.w.ledger(r)
+	for c := range x.squeezed[r] {
+		if _, ok := l[c]; !ok {
+			delete(x.squeezed[r], c)
+		}
+	}
+	if !pushOverLimit {
+		return
+	}
+	t := x.w.e.VerifQueue().VerifTracker(x.w.ids[r])
+	for c := range l {
+		need := x.w.store[c] // a task that knows the block is there
+		found := false
+		if t != nil {
+			for _, q := range t.VerifPending() {
+				if cidIdx(q.Topic.(cid.Cid)) == c {
+					_, _, hb, _ := decision.VerifTaskData(q.Data)
+					if hb || !need {
+						found = true
+					}
+				}
+			}
+			for _, q := range t.VerifActive() {
+				if cidIdx(q.Topic.(cid.Cid)) == c {
+					_, _, hb, _ := decision.VerifTaskData(q.Data)
+					if hb || !need {
+						found = true
+					}
+				}
+			}
+		}
+		if !found {
+			x.squeezed[r][c] = true
+			x.count("tasks_dropped_queue_at_limit")
 		}
 	}
 }
@@ -589,7 +682,7 @@ func (x *seqRun) invariants(op string) {
 // engine is quiet; then every accepted want must have been answered.
 func (x *seqRun) drain() {
 	x.logf("-- drain: receiver takes and sends everything the engine produces")
-	for i := 0; i < 24 && x.viol == nil; i++ {
+	for i := 0; i < 24; i++ {
 		progressed := false
 		for len(x.held) > 0 {
 			x.sent()
@@ -609,9 +702,6 @@ func (x *seqRun) drain() {
 			break
 		}
 	}
-	if x.viol != nil {
-		return
-	}
 	if len(x.held) > 0 {
 		x.fail(eng.V("drain-not-quiescent", "quiescence", "the engine still produced envelopes after 24 rounds"))
 		return
@@ -624,11 +714,11 @@ func (x *seqRun) drain() {
 				if c == cZ {
 					kind = "empty-block"
 				}
-				x.fail(eng.V("want-unanswered", "quiescence", fmt.Sprintf("accepted want %s of p%d (want-list %s) was never answered although the block is in the store, the engine is idle and a receiver waits on the outbox\n%s", cname(c), r+1, fmtLedger(l), x.queueDump()), "cid_kind", kind, "queue_limit", fmt.Sprint(x.cfg.L)))
+				x.fail(eng.V("want-unanswered", "quiescence", fmt.Sprintf("accepted want %s of p%d (want-list %s) was never answered although the block is in the store, the engine is idle and a receiver waits on the outbox\n%s", cname(c), r+1, fmtLedger(l), x.queueDump()), "cid_kind", kind, "task_dropped_queue_at_limit", fmt.Sprint(x.squeezed[r][c])))
 			}
 		}
 		for c := range x.oblig[r] {
-			x.fail(eng.V("dont-have-unanswered", "quiescence", fmt.Sprintf("p%d's accepted want %s with send_dont_have for an absent block never got an answer (want-list %s)\n%s", r+1, cname(c), fmtLedger(l), x.queueDump()), "queue_limit", fmt.Sprint(x.cfg.L)))
+			x.fail(eng.V("dont-have-unanswered", "quiescence", fmt.Sprintf("p%d's accepted want %s with send_dont_have for an absent block never got an answer (want-list %s)\n%s", r+1, cname(c), fmtLedger(l), x.queueDump()), "task_dropped_queue_at_limit", fmt.Sprint(x.squeezed[r][c])))
 		}
 	}
 }
@@ -661,6 +751,12 @@ func (x *seqRun) stateKey() string {
 		}
 		sort.Ints(ob)
 		sb.WriteString(names(ob))
+		var sq []int
+		for c := range x.squeezed[r] {
+			sq = append(sq, c)
+		}
+		sort.Ints(sq)
+		sb.WriteString(" sq=" + names(sq))
 	}
 	fmt.Fprintf(&sb, "|req=%v held=", x.req != nil)
 	for _, h := range x.held {
@@ -690,15 +786,38 @@ func (x *seqRun) stateKey() string {
 // runSeq executes one script under the controlled scheduler (default schedule:
 // every worker runs to quiescence between two operations).
 func runSeq(cfg config, ops []string, trace bool) (*seqRun, *vsched.Result) {
-	x := &seqRun{cfg: cfg, ops: ops, trace: trace, violAt: -1}
+	x := &seqRun{cfg: cfg, ops: ops, trace: trace}
 	res := vsched.Run(vsched.Config{MaxSteps: 200000, MaxIdleFires: 0, SelectCost: 1, Trace: trace}, x.Main)
-	if x.viol == nil {
-		switch res.Verdict {
-		case "ok", "horizon":
-		default:
-			x.viol = eng.V(res.Verdict, "", res.Detail)
-			x.violAt = len(ops)
-		}
+	switch res.Verdict {
+	case "ok", "horizon":
+	default:
+		x.viols = append(x.viols, eng.V(res.Verdict, "", res.Detail))
+		x.fatal = true
 	}
 	return x, res
+}
+
+// outcomeString is the observation of the last operation (outcome counting).
+func (x *seqRun) outcomeString() string {
+	if len(x.ops) == 0 {
+		return "init"
+	}
+	// the log lines produced by the last operation, up to the drain marker
+	last := -1
+	for i, l := range x.log {
+		if strings.HasPrefix(l, "-- drain") {
+			break
+		}
+		if !strings.HasPrefix(l, "  ") {
+			last = i
+		}
+	}
+	if last < 0 {
+		return ""
+	}
+	var out []string
+	for i := last; i < len(x.log) && !strings.HasPrefix(x.log[i], "-- drain"); i++ {
+		out = append(out, strings.TrimSpace(x.log[i]))
+	}
+	return strings.Join(out, ";")
 }
